@@ -99,6 +99,10 @@ def main(tier):
     if not c.phase_builds(("debug",)):
         c.finish(rule="build failed")
     vh, drv = vlib.VH["debug"], vlib.DRIVER
+    # Blocks_front_matter_factor (Props/Blocks.v): the parser is the prologue followed by the block phase on the
+    # lines of the remainder; the block-phase model is tied here
+    from checks import layerc
+    layerc.blocks(c, tier, 0.25 if tier == "quick" else 0.1)
 
     def classify(d, s, what, case, cls_line):
         """a failure on input s: known class (extracted fm_class) or violation"""
